@@ -201,4 +201,5 @@ Proof.
   - apply mk1_0_failed.
   - discriminate.
   - discriminate.
+  - apply mk1_0_failed.
 Qed.
